@@ -168,7 +168,20 @@ class Model:
         # allowed causes (tie policy: equalities allow either)
         a.allowed = None
         a.cause, a.ta = None, None
-        if rend is None or rend['kind'] == 'run_cancel' or not nonf:
+        if rend is None or rend['kind'] == 'run_cancel':
+            return a
+        if not nonf:
+            # a scheduler of forever jobs only runs until one of them ends or
+            # its timeout fires (README, example D).  The one case that every
+            # reading of the statements agrees on: none of its jobs has ended
+            # when T expires -> the run was "not over T seconds after it
+            # began", the cause is the timeout and nothing else
+            any_end = [self.first(j, END, before=lim) for j in dj]
+            if dj and a.texp is not None and not any(any_end) and rend['t'] >= a.texp:
+                a.allowed = {'timeout'}
+                a.cause, a.ta = 'timeout', a.texp
+                a.tc_regular = None
+                a.tie_crit_timeout = False
             return a
         t_all, tc, texp = a.t_all, a.tc, a.texp
         # a critical job that is NOT forever and raised can never be part of a
